@@ -9,10 +9,12 @@ RE, ZE = (0, 2, 5, 7), (-3, 0, 2, 5)
 def run(tier, seed):
     ctx = CheckContext("C15", tier, seed)
     ctx.invariants = ["ProjectionIsMarginal", "SectorSymmetry"]
-    runs = [("MC_Special_q", 8, 4, 1.0, False, 0), ("MC_Special_q", 8, 4, 0.5, True, 1)]
+    # the last two: coordinates whose squares leave the float range (2**1200) or vanish (2**-1200) while the points are ordinary
+    runs = [("MC_Special_q", 8, 4, 1.0, False, 0), ("MC_Special_q", 8, 4, 0.5, True, 1),
+            ("MC_Special_q", 8, 4, 2.0 ** 600, False, 0), ("MC_Special_q", 8, 4, 2.0 ** -600, False, 1)]
     if tier == "thorough":
         runs = [("MC_Special_t", 8, 4, 1.0, False, 0), ("MC_Special_t", 8, 4, 0.25, True, 1), ("MC_Special_t2", 4, 2, 1.0, False, 1),
-                ("MC_Special_t", 8, 4, 3.0, False, 0)]
+                ("MC_Special_t", 8, 4, 3.0, False, 0), ("MC_Special_t", 8, 4, 2.0 ** 600, False, 1), ("MC_Special_t", 8, 4, 2.0 ** -600, False, 0)]
     graphs = {}
     for cfg, nphi, nth, scale, nz, sp in runs:
         if cfg not in graphs:
